@@ -1501,7 +1501,16 @@ def instances(tier: str) -> List[Tuple[str, tuple, dict, Callable[..., Callable[
           ("firefly", (3, 3, [["..", ">1", ".."], ["..", "..", "<?"], ["..", "..", ".."]]), {}, rule_firefly),
           ("firefly", (3, 3, [["..", "<?", ".."], ["..", "..", "^?"], ["..", "..", "^?"]]), {}, rule_firefly),
           ("firefly", (3, 3, [[">0", "..", "v0"], ["..", "..", ".."], ["^0", "..", "<0"]]), {}, rule_firefly),
-          ("firefly", (3, 3, [["..", "..", ".."], ["^?", "..", "v?"], ["..", "..", ".."]]), {}, rule_firefly)]
+          ("firefly", (3, 3, [["..", "..", ".."], ["^?", "..", "v?"], ["..", "..", ".."]]), {}, rule_firefly),
+          # two pairs that can close on themselves (two separate rings) or hang together; two beams that could cross in the middle cell;
+          # a dot that points off the board; a number larger than any beam's bends; a number on a beam that cannot bend
+          ("firefly", (2, 4, [[">?", "v?", ">?", "v?"], ["..", "..", "..", ".."]]), {}, rule_firefly),
+          ("firefly", (3, 3, [["..", "v?", ".."], [">?", "..", "^?"], ["..", "<?", ".."]]), {}, rule_firefly),
+          ("firefly", (3, 3, [["..", "v?", ".."], [">?", "..", "^?"], ["..", ">?", ".."]]), {}, rule_firefly),   # ... crossing off the ring
+          ("firefly", (2, 2, [["^?", ".."], ["..", ".."]]), {}, rule_firefly),
+          ("firefly", (2, 2, [[">2", ".."], ["..", "<?"]]), {}, rule_firefly),
+          ("firefly", (2, 2, [[">1", ".."], ["..", "<?"]]), {}, rule_firefly),
+          ("firefly", (2, 3, [[">1", "..", "v?"], ["..", "..", ".."]]), {}, rule_firefly)]
     # simpleloop: only instances whose pivot entry agrees with the parity the solver derives for the pivot cell
     I += [("simpleloop", (2, 2, [[0, 0], [0, 0]], (0, 0)), {}, rule_simpleloop),
           ("simpleloop", (2, 3, [[0, 0, 0], [0, 0, 0]], (1, 2)), {}, rule_simpleloop),
